@@ -324,6 +324,18 @@ def run(a, pid, tier, cfg, pi, work, t0):
             status = max(status, 2)
             continue
         crash = re.search(r"^(fatal error: .*|panic: .*|WARNING: DATA RACE)", log, re.M)
+        if not crash:
+            # a panic that rapid caught inside the property: a violation if it was raised in
+            # thunder code (the innermost frame outside the Go runtime and reflect belongs to
+            # thunder), a harness error otherwise
+            m = re.search(r"\[rapid\] panic after \d+ tests?: (.*)\n(?:.*\n)*?\s+Traceback:\n((?:\s+\S+ in \S+\n)+)", log)
+            if m:
+                for fr in re.findall(r"^\s+(\S+) in (\S+)$", m.group(2), re.M):
+                    if fr[0].startswith("/usr/lib/go") or "/go/src/" in fr[0] or fr[1].startswith(("reflect.", "runtime.", "sync.", "sort.", "strconv.", "encoding/")):
+                        continue
+                    if "github.com/samsarahq/thunder/" in fr[1]:
+                        crash = re.match(r"(.*)", "panic: " + m.group(1))
+                    break
         harness_err = "harness:" in log and not mine
         if mine:
             continue  # reported below
